@@ -237,6 +237,12 @@ pub fn analyze_s<M: Mask>(info: &Info<M>, cfg: &RunCfg, res: &RunRes, out: &mut 
     // a call that does not return also breaks the "returns Err/Break" clause of C07 when a
     // function failed, and the "the call returns" clause of C08 when a signal was sent
     let no_return = |out: &mut Vec<Viol>, how: &str| {
+        let interrupted = int_at.is_some() && cfg.strat.effective();
+        if !interrupted && !started.intersects(&fail_mask) && started.count() != n {
+            // "exactly once in a clean run": a clean run that can never hand out a function
+            let missing: Vec<usize> = (0..n).filter(|i| !started.get(*i)).collect();
+            v(out, 3, format!("clean run never hands out {missing:?}: the call does not return ({how})"));
+        }
         if started.intersects(&fail_mask) {
             v(out, 7, format!("the call does not return after functions {:?} failed ({how})", started.and(&fail_mask).list()));
         }
@@ -528,6 +534,9 @@ pub fn analyze_c<M: Mask>(info: &Info<M>, cfg: &CCfg, res: &CRes, out: &mut Vec<
     if res.end == Some(CEnd::Parked) {
         let missing: Vec<usize> = (0..n).filter(|i| !yielded.get(*i)).collect();
         v(out, 5, format!("consumer is parked (last poll Pending, no wake-up, every FnRef dropped) but the stream has not ended; unyielded: {missing:?}"));
+        if !(effective && int_at.is_some()) && !missing.is_empty() {
+            v(out, 3, format!("clean stream run never hands out {missing:?}: the stream stalls with every FnRef dropped"));
+        }
         if effective && int_at.is_some() {
             v(out, 8, "interrupted stream never ends".into());
         }
